@@ -123,6 +123,7 @@ func specIsFirstData(op ws.OpCode) bool { return op < 8 && op != ws.OpContinuati
 
 //@ func MessageState.SetBits
 //@   props C13
+//@   sig s h -> _ _
 //@   requires [op] h.OpCode < 16 && h.Rsv < 8
 //@   ensures [err]  (result1 != nil) == (h.Rsv&4 != 0)
 //@   ensures [errv] result1 != nil ==> result1 == ErrUnexpectedCompressionBit && result0.Rsv == h.Rsv
@@ -133,6 +134,7 @@ func specIsFirstData(op ws.OpCode) bool { return op < 8 && op != ws.OpContinuati
 
 //@ func MessageState.UnsetBits
 //@   props C13 C15
+//@   sig s h -> _ _
 //@   requires [rsv] h.Rsv < 8 && h.OpCode < 16
 //@   ensures [first] specIsFirstData(h.OpCode) ==> result1 == nil && s.compressed == (h.Rsv&4 != 0) && result0.Rsv == h.Rsv&3
 //@   ensures [other] !specIsFirstData(h.OpCode) ==> s.compressed == old(s.compressed) && result0.Rsv == h.Rsv && (result1 != nil) == (h.Rsv&4 != 0)
@@ -142,16 +144,19 @@ func specIsFirstData(op ws.OpCode) bool { return op < 8 && op != ws.OpContinuati
 
 //@ func MessageState.IsCompressed
 //@   props C13
+//@   sig s -> _
 //@   ensures [v] result == s.compressed
 //@   assigns nothing
 
 //@ func MessageState.SetCompressed
 //@   props C13
+//@   sig s v ->
 //@   ensures [v] s.compressed == v
 //@   assigns s.compressed
 
 //@ func SetBit
 //@   props C13
+//@   sig h -> _ err
 //@   requires [op] h.OpCode < 16 && h.Rsv < 8
 //@   ensures [err] (err != nil) == (h.Rsv&4 != 0)
 //@   ensures [set] err == nil ==> result0.Rsv == h.Rsv|byte(iteInt(specIsFirstData(h.OpCode), 4, 0))
@@ -160,6 +165,7 @@ func specIsFirstData(op ws.OpCode) bool { return op < 8 && op != ws.OpContinuati
 
 //@ func UnsetBit
 //@   props C13
+//@   sig h -> _ wasSet err
 //@   requires [rsv] h.Rsv < 8 && h.OpCode < 16
 //@   ensures [first] specIsFirstData(h.OpCode) ==> err == nil && wasSet == (h.Rsv&4 != 0) && result0.Rsv == h.Rsv&3
 //@   ensures [other] !specIsFirstData(h.OpCode) ==> !wasSet && (err != nil) == (h.Rsv&4 != 0) && result0.Rsv == h.Rsv
@@ -201,11 +207,13 @@ func specLegal(resp, offer Parameters) bool {
 
 //@ func isValidBits
 //@   props C14
+//@   sig x -> _
 //@   ensures [v] result == (8 <= x && x <= 15)
 //@   assigns nothing
 
 //@ func bitsFromASCII
 //@   props C14 C15
+//@   sig p -> _ _
 //@   locals i:int n:int ok:bool
 //@   ensures [ok]  result1 == specBitsText(p)
 //@   ensures [val] result1 ==> result0 == specBitsValue(p)
@@ -221,11 +229,13 @@ func specLegal(resp, offer Parameters) bool {
 
 //@ func Extension.Reset
 //@   props C14 C18
+//@   sig n ->
 //@   ensures [asnew] !n.accepted && n.params == Parameters{} && n.Parameters == old(n.Parameters)
 //@   assigns n.accepted, n.params
 
 //@ func Extension.Accepted
 //@   props C14
+//@   sig n -> _ accepted
 //@   ensures [v] result0 == n.params && accepted == n.accepted
 //@   assigns nothing
 
@@ -265,6 +275,7 @@ func specParamValueOK(key, val []byte) bool {
 // The callback of Parameters.Parse handles one (key, value) pair.
 //@ func Parameters.Parse$1
 //@   props C14 C15
+//@   sig key val -> ok
 //@   requires [state] err == nil && p != nil && seen < 16
 //@   ensures  [accept] ok == (specSeenBit(key) != 0 && old(seen)&specSeenBit(key) == 0 && specParamValueOK(key, val))
 //@   ensures  [err]    (err != nil) == !ok
@@ -303,6 +314,7 @@ func eqvOption(a, b httphead.Option) bool { return a.Equal(b) }
 
 //@ func Extension.Negotiate
 //@   props C14 C15
+//@   sig n opt -> accept err
 //@   requires [cfg] validConfig(n.Parameters)
 //@   ensures  [once]  old(n.accepted) ==> n.accepted && n.params == old(n.params)
 //@   ensures  [legal] n.accepted && !old(n.accepted) ==> err == nil && specLegal(n.Parameters, n.params)
@@ -351,6 +363,7 @@ func invSuffixed(r *suffixedReader) bool {
 
 //@ func suffixedReader.reset
 //@   props C12 C18
+//@   sig r src ->
 //@   ensures [asnew] r.r == src && r.pos == 0 && r.suffix == old(r.suffix)
 //@   assigns r.r, r.pos
 
@@ -362,6 +375,7 @@ func seqRead(p []byte, n, m int, src io.Reader, sp, tp int) bool {
 
 //@ func suffixedReader.Read
 //@   props C12 C15 C16
+//@   sig r p -> n err
 //@   requires [inv]  invSuffixed(r) && (r.r != nil ==> streamOK(r.r)) && notPartOf(p, r)
 //@   ensures  [m]    0 <= iteInt(old(r.r) != nil, inPos(old(r.r))-old(inPos(r.r)), 0) && iteInt(old(r.r) != nil, inPos(old(r.r))-old(inPos(r.r)), 0) <= n && n <= len(p)
 //@   ensures  [seq]  seqRead(p, n, iteInt(old(r.r) != nil, inPos(old(r.r))-old(inPos(r.r)), 0), old(r.r), old(inPos(r.r)), old(r.pos))
@@ -383,6 +397,7 @@ func isByteReader(r io.Reader) bool {
 
 //@ func suffixedReader.ReadByte
 //@   props C12 C15
+//@   sig r -> b err
 //@   requires [inv]  invSuffixed(r) && (r.r != nil ==> streamOK(r.r) && isByteReader(r.r))
 //@   ensures  [src]  old(r.r) != nil && old(inPos(r.r)) < inEnd(old(r.r)) && err == nil ==> b == inByte(old(r.r), old(inPos(r.r))) && inPos(old(r.r)) == old(inPos(r.r))+1 && r.pos == old(r.pos)
 //@   ensures  [next] err == nil && !(old(r.r) != nil && old(inPos(r.r)) < inEnd(old(r.r))) ==> b == specTailByte(old(r.pos)) && r.pos == old(r.pos)+1 && old(r.pos) < 9 && r.r == nil
@@ -405,11 +420,13 @@ func cbufByte(c *cbuf, j int) byte {
 
 //@ func cbuf.reset
 //@   props C12 C18
+//@   sig c dst ->
 //@   ensures [asnew] c.n == 0 && c.err == nil && c.dst == dst && c.buf == [4]byte{}
 //@   assigns c.n, c.err, c.buf, c.dst
 
 //@ func cbuf.Write
 //@   props C12 C16
+//@   sig c p -> _ _
 //@   requires [inv]    invCbuf(c) && notPartOf(p, c) && outLen(c.dst)+len(p) < 1<<60
 //@   ensures  [sticky] old(c.err) != nil ==> result0 == 0 && result1 == old(c.err) && outLen(c.dst) == old(outLen(c.dst)) && c.n == old(c.n) && c.buf == old(c.buf)
 //@   ensures  [ret]    old(c.err) == nil ==> result0 == len(p) && result1 == c.err
@@ -469,24 +486,28 @@ func cbufByte(c *cbuf, j int) byte {
 
 //@ func Writer.checkTail
 //@   props C12
+//@   sig w ->
 //@   ensures [ok]  w.err == nil ==> old(w.err) == nil && w.cbuf.buf == compressionTail
 //@   ensures [err] old(w.err) != nil ==> w.err == old(w.err)
 //@   assigns w.err
 
 //@ func Writer.Reset
 //@   props C12 C18
+//@   sig w dest ->
 //@   requires [ctor] w.ctor != nil
 //@   ensures [asnew] w.err == nil && w.cbuf.n == 0 && w.cbuf.err == nil && w.cbuf.dst == dest && w.cbuf.buf == [4]byte{} && w.c != nil
 //@   assigns w.err, w.cbuf, w.c, stream(w.c)
 
 //@ func Writer.Write
 //@   props C12 C18 C16
+//@   sig w p -> n err
 //@   requires [c] w.c != nil
 //@   ensures [sticky] old(w.err) != nil ==> n == 0 && err == old(w.err) && w.err == old(w.err)
 //@   ensures [err]    err == w.err
 
 //@ func Writer.Flush
 //@   props C12 C16
+//@   sig w -> _
 //@   requires [c] w.c != nil
 //@   ensures [sticky] old(w.err) != nil ==> result == old(w.err) && w.err == old(w.err)
 //@   ensures [tail]   result == nil ==> w.cbuf.buf == compressionTail
@@ -494,6 +515,7 @@ func cbufByte(c *cbuf, j int) byte {
 
 //@ func Writer.Close
 //@   props C12 C16
+//@   sig w -> _
 //@   requires [c] w.c != nil
 //@   ensures [sticky] old(w.err) != nil ==> result == old(w.err) && w.err == old(w.err)
 //@   ensures [tail]   result == nil ==> w.cbuf.buf == compressionTail
@@ -501,43 +523,51 @@ func cbufByte(c *cbuf, j int) byte {
 
 //@ func Writer.Err
 //@   props C12
+//@   sig w -> _
 //@   ensures [err] result == w.err
 //@   assigns nothing
 
 //@ func suffixedReader.iface
 //@   props C12
+//@   sig r -> _
 //@   ensures [self] isByteReader(r.r) ==> result == io.Reader(r)
 //@   ensures [cut]  !isByteReader(r.r) ==> !isByteReader(result) && r.rx.Reader == io.Reader(r)
 //@   assigns r.rx.Reader
 
 //@ func NewReader
 //@   props C12 C18
+//@   sig r ctor -> _
 //@   requires [ctor] ctor != nil
 //@   ensures [new] result != nil && freshObj(result) && invSuffixed(&result.sr) && result.sr.r == r && result.src == r && result.err == nil && result.d != nil
 
 //@ func NewWriter
 //@   props C12 C18
+//@   sig w ctor -> _
 //@   requires [ctor] ctor != nil
 //@   ensures [new] result != nil && freshObj(result) && result.err == nil && result.cbuf.n == 0 && result.cbuf.err == nil && result.cbuf.dst == w && result.cbuf.buf == [4]byte{} && result.c != nil
 
 //@ func Reader.Reset
 //@   props C12 C18
+//@   sig r src ->
 //@   requires [ctor] r.ctor != nil
 //@   ensures [asnew] r.err == nil && r.sr.r == src && r.sr.pos == 0 && r.sr.suffix == old(r.sr.suffix) && r.src == src && r.d != nil
 //@   assigns r.err, r.src, (&r.sr).r, (&r.sr).pos, (&r.sr).rx, r.d, stream(r.d)
 
 //@ func Reader.Read
 //@   props C12 C18 C15 C16
+//@   sig r p -> n err
 //@   requires [d] r.d != nil
 //@   ensures [sticky] old(r.err) != nil ==> n == 0 && err == old(r.err) && r.err == old(r.err)
 
 //@ func Reader.Close
 //@   props C12
+//@   sig r -> _
 //@   ensures [sticky] old(r.err) != nil ==> result == old(r.err) && r.err == old(r.err)
 //@   ensures [err]    result == r.err
 
 //@ func Reader.Err
 //@   props C12
+//@   sig r -> _
 //@   ensures [err] result == r.err
 //@   assigns nothing
 
@@ -553,6 +583,7 @@ func sameHdrButRsvLen(a, b ws.Header) bool {
 
 //@ func Helper.CompressFrameBuffer
 //@   props C12 C13 C17
+//@   sig h buf f -> _ _
 //@   requires [hdr] f.Header.OpCode < 16 && f.Header.Rsv < 8
 //@   call Helper.CompressTo havoc
 //@   ensures [nonfinal] !f.Header.Fin ==> result1 != nil && result0.Header == f.Header && sameSlice(result0.Payload, f.Payload)
@@ -561,6 +592,7 @@ func sameHdrButRsvLen(a, b ws.Header) bool {
 
 //@ func Helper.DecompressFrameBuffer
 //@   props C12 C13 C15 C17
+//@   sig h buf f -> _ _
 //@   requires [hdr] f.Header.OpCode < 16 && f.Header.Rsv < 8
 //@   call Helper.DecompressTo havoc
 //@   ensures [nonfinal] !f.Header.Fin ==> result1 != nil && result0.Header == f.Header && sameSlice(result0.Payload, f.Payload)
